@@ -280,7 +280,12 @@ def parse_youtube_url(url, fix_common_mistakes=True):
     if parsed.hostname and parsed.hostname.endswith("youtu.be"):
 
         if path.count("/") > 0:
-            v = pathsplit(path)[0]
+            splitted_path = pathsplit(path)
+
+            if len(splitted_path) < 1:
+                return None
+
+            v = splitted_path[0]
 
             if fix_common_mistakes:
                 v = v[:11]
